@@ -102,6 +102,18 @@ def check_values(ctx, case, out, avg, mode, selname, selkw, p):
             tol = 8 * np.sqrt(np.maximum(gotvar, 0) / 60) + 1e-9
             if not np.all(np.abs(got - want) <= tol):
                 ctx.violation(f"weighted-mean-wrong:{tag}:{lab}", f"{lab}_{suf} deviates from the inverse-variance weighted mean by {np.nanmax(np.abs(got - want))} (> 8 standard errors)", p)
+    if f.double and suf in ("avg2", "avgx2"):
+        # tmpw of the weighted modes: the inverse-variance combination of the forward and backward weighted means, variance 1/(1/vf + 1/vb)
+        vf_, vb_ = avg[f"tmpf_mc_{suf}_var"].values, avg[f"tmpb_mc_{suf}_var"].values
+        wantv = 1 / (1 / vf_ + 1 / vb_)
+        if not np.allclose(avg[f"tmpw_mc_{suf}_var"].values, wantv, rtol=1e-9, equal_nan=True):
+            ctx.violation(f"weighted-variance-wrong:{tag}:tmpw", f"tmpw_mc_{suf}_var is not 1/(1/tmpf_mc_{suf}_var + 1/tmpb_mc_{suf}_var)", p)
+        wantm = (avg[f"tmpf_{suf}"].values / vf_ + avg[f"tmpb_{suf}"].values / vb_) * wantv
+        if not np.allclose(avg[f"tmpw_{suf}"].values, wantm, rtol=1e-9, atol=1e-9, equal_nan=True):
+            ctx.violation(f"weighted-mean-wrong:{tag}:tmpw", f"tmpw_{suf} is not the inverse-variance combination of tmpf_{suf} and tmpb_{suf}", p)
+        lo, hi = np.minimum(avg[f"tmpf_{suf}"].values, avg[f"tmpb_{suf}"].values), np.maximum(avg[f"tmpf_{suf}"].values, avg[f"tmpb_{suf}"].values)
+        if not np.all((avg[f"tmpw_{suf}"].values >= lo - 1e-9) & (avg[f"tmpw_{suf}"].values <= hi + 1e-9)):
+            ctx.violation(f"weighted-mean-outside-hull:{tag}:tmpw", f"tmpw_{suf} does not lie between tmpf_{suf} and tmpb_{suf}", p)
     if f.double and suf in ("avg1", "avgx1"):
         want = avg["tmpw_avgsec"].mean(dim=[d for d in avg["tmpw_avgsec"].dims if d.startswith(dim_avg)][0]).values
         if not np.allclose(avg[f"tmpw_{suf}"].values, want, rtol=1e-9, atol=1e-9, equal_nan=True):
